@@ -12,6 +12,7 @@ import (
 	"flag"
 	"fmt"
 	"os"
+	"sort"
 	"strings"
 	"time"
 
@@ -35,8 +36,11 @@ func main() {
 		trans += info["model_transitions_total"].(int)
 	}
 	if *part == "all" || *part == "local" {
-		restore := r.Limit(r.Remaining() * 55 / 100)
+		restore := r.Limit(r.Remaining() * 65 / 100)
 		cfgs := localConfigs(r)
+		// every search gets an equal share of what is LEFT when it starts, so the last ones inherit what the cheap ones did not
+		// use: the expensive searches (largest alphabets / depths) go last
+		sort.SliceStable(cfgs, func(a, b int) bool { return heavy(cfgs[a]) < heavy(cfgs[b]) })
 		if *only != "" {
 			var sel []*localCfg
 			for _, c := range cfgs {
@@ -120,4 +124,15 @@ func main() {
 	r.Assume("recover mode (15-minute stall timer, recover proposals) is never triggered; equal voting powers in the symmetry-reduced searches")
 	r.Assume("own messages are handled immediately after the input that produced them except in the 'nodrain' searches")
 	r.Finish()
+}
+
+// heavy ranks a local search by its expected cost (0 = ordinary).
+func heavy(c *localCfg) int {
+	switch {
+	case strings.HasSuffix(c.name, "relocked-A-r2-moved-to-r3"), strings.Contains(c.name, "equiv+maj23"):
+		return 2
+	case strings.HasSuffix(c.name, "/sym/init"), strings.HasSuffix(c.name, "locked-A-r1-moved-to-r2"), strings.Contains(c.name, "height2"):
+		return 1
+	}
+	return 0
 }
